@@ -1,10 +1,56 @@
-/- driver for C14 : to be filled in (stub keeps Main.lean compiling) -/
+/- driver for C14 (compiled condition / penalty functions): Float instantiation of Model/Emitted. -/
 import MysticVerif.Basic.Proto
+import MysticVerif.Model.Emitted
+import MysticVerif.Drv.C13
 
 namespace MysticVerif.DrvC14
-open MysticVerif
+open MysticVerif MysticVerif.Emitted MysticVerif.DrvC13
+
+def parseRel2 : Val → Option (Rel2 UInt64)
+  | .list [l, c, r] => do pure ⟨← parseExpr l, ← parseCmp c, ← parseExpr r⟩
+  | _ => none
+
+def parseKind : Val → Option Kind
+  | .sym "inequality" => some .ineq
+  | .sym "equality" => some .eq
+  | _ => none
+
+def parsePType : Val → Option PType
+  | .sym "quadratic_equality" => some .qEq
+  | .sym "linear_equality" => some .lEq
+  | .sym "uniform_equality" => some .uEq
+  | .sym "quadratic_inequality" => some .qIneq
+  | .sym "linear_inequality" => some .lIneq
+  | .sym "uniform_inequality" => some .uIneq
+  | _ => none
+
+def parseCond : Val → Option (Kind × PType × Expr UInt64)
+  | .list [k, t, e] => do pure (← parseKind k, ← parsePType t, ← parseExpr e)
+  | _ => none
+
+def inf : Float := 1.0 / 0.0
 
 def handle : Handler
+  | .sym "pen" :: args => Id.run do
+    let some tol := (kw? args "tol").bind Val.asFloat? | return "bad-op"
+    let some rel := (kw? args "rel").bind Val.asFloat? | return "bad-op"
+    let some k := (kw? args "k").bind Val.asFloat? | return "bad-op"
+    let some h := (kw? args "h").bind Val.asFloat? | return "bad-op"
+    let some n := (kw? args "n").bind Val.asNat? | return "bad-op"
+    let some x := (kw? args "x").bind Val.asFloats? | return "bad-op"
+    let some rels := (kw? args "rels").bind Val.asList? |>.bind (·.mapM parseRel2) | return "bad-op"
+    let some conds := (kw? args "conds").bind Val.asList? |>.bind (·.mapM parseCond) | return "bad-op"
+    if rels.length != conds.length then return "bad-op"
+    let env := mkEnv tol rel
+    let recog := List.zipWith (fun r (c : Kind × PType × Expr UInt64) => recogniseCond r c.1 c.2.2) rels conds
+    let rs := "(" ++ " ".intercalate (recog.map pB) ++ ")"
+    -- does each penalty type match the kind of its condition (hypothesis of penalty_zero_iff)
+    let conf := conds.map fun c => decide (c.2.1.kind = c.1)
+    let cs := "(" ++ " ".intercalate (conf.map pB) ++ ")"
+    let cv := conds.map fun c => if c.2.2.defined env x then pF (c.2.2.eval env x) else "raises"
+    let k' := k * powN h n
+    let p := penalty env k' inf (conds.map fun c => (c.2.1, c.2.2)) x
+    return s!"ok recog={rs} conform={cs} cvals={pL cv} pen={pF p}"
   | _ => "bad-op"
 
 end MysticVerif.DrvC14
